@@ -660,6 +660,7 @@ def c05(ctx):
     M.tlc_model(ctx, "Routing", rt_cfg("admit", q, "FALSE"), "rt_admit", timeout=1500)
     cells = tlc_cells(ctx, "Routing", rt_cfg("route", q, "TRUE", "EmitCell"), "route")
     cells += tlc_cells(ctx, "Routing", rt_cfg("admit", q, "TRUE", "EmitCell"), "admit")
+    cells += tlc_cells(ctx, "Routing", rt_cfg("wtadmit", q, "TRUE", "EmitCell"), "wtadmit")
     ctx.extra["cells"] = len(cells)
     trace, summ = M.go_family(ctx, "rt", behaviours=[cells], timeout=3000)
     mon = rt_cfg("admit", q, "FALSE", "TableOK").replace("SPECIFICATION Spec", "SPECIFICATION MSpec").replace("INVARIANTS TableOK\n", "") \
@@ -688,10 +689,10 @@ def c05(ctx):
 def hs_cfg(quick, emit, inv="TableOK"):
     if quick:
         dom = ('PIs = {25000, 300} PTs = {20000} MaxPayloads = {1000000, 5000} EnabledSets = {"p","pw","pwt","w"} AllowUpgrades = {TRUE, FALSE}\n'
-               ' Eio3s = {TRUE, FALSE} Initials = {"none","text","binary"} Transports = {"polling","websocket"} Eios = {"4","3","absent","3then4","4then3"} B64s = {FALSE, TRUE}\n')
+               ' Eio3s = {TRUE, FALSE} Initials = {"none","text","binary"} Transports = {"polling","websocket","webtransport"} Eios = {"4","3","absent","3then4","4then3"} B64s = {FALSE, TRUE}\n')
     else:
         dom = ('PIs = {25000, 300} PTs = {20000, 200} MaxPayloads = {1000000, 5000} EnabledSets = {"p","pw","pwt","pt","w"} AllowUpgrades = {TRUE, FALSE}\n'
-               ' Eio3s = {TRUE, FALSE} Initials = {"none","text","binary"} Transports = {"polling","websocket"} Eios = {"4","3","absent","3then4","4then3"} B64s = {FALSE, TRUE}\n')
+               ' Eio3s = {TRUE, FALSE} Initials = {"none","text","binary"} Transports = {"polling","websocket","webtransport"} Eios = {"4","3","absent","3then4","4then3"} B64s = {FALSE, TRUE}\n')
     return "SPECIFICATION Spec\nCONSTANTS %s Emit = %s\nINVARIANTS %s\n" % (dom, emit, inv)
 
 
@@ -719,7 +720,7 @@ def c06(ctx):
         o, c = v.get("obs", {}), v.get("cell", {})
         v["sig"] = "initial:%s->%s:n%s" % (c.get("initial"), o.get("initial"), v.get("ordinal")) if o.get("initial") != c.get("initial") else "other"
     M.classify(ctx, viols)
-    ctx.assumptions = ["WebTransport handshakes are not driven here (covered at the framing layer); webtransport only appears as an enabled upgrade target",
+    ctx.assumptions = ["WebTransport sessions are opened through the fake HTTP/3 layer (a real webtransport.Session) with the handshake packet '0'",
                        "quick tier samples 700 cells of the lattice with VERIF_SEED; thorough runs the whole lattice"]
     return M.finish(ctx, rule="one case = the n-th (n=1..3) handshake of a fresh server configured as one cell of Handshake.tla; open packet, first "
                     "message, connection events, revision, payload format and heartbeat mode observed", exhaustive=not q, evs=evs)
